@@ -11,12 +11,12 @@ echo "== demo on unchanged tree"; (cd $W && PYTHONPATH=$W timeout 300 /venv/bin/
 git -C $W apply $SRC/patch.diff || { echo "PATCH DOES NOT APPLY to HEAD"; exit 8; }
 echo "== tests with change"; (cd $W && PYTHONPATH=$W timeout 900 /venv/bin/python -m pytest -q -p no:cacheprovider --timeout=900 2>&1 | tail -1)
 echo "== demo with change"; (cd $W && PYTHONPATH=$W timeout 300 /venv/bin/python $SRC/demo.py $W >/tmp/demo_mut_$$.txt 2>&1; echo "exit=$?"; tail -3 /tmp/demo_mut_$$.txt)
-mkdir -p $V && rsync -a --exclude .git /verif/ $V/
+mkdir -p $V && rsync -a --exclude .git --exclude replays /verif/ $V/
 for P in "$@"; do
   for T in ${TIERS:-quick}; do
     echo "== check $P $T"
     (cd $V && MSQ_REPO=$W VERIF_SEED=${VERIF_SEED:-1} timeout 3000 ./check $P --tier $T 2>&1 | tail -4; echo "exit=${PIPESTATUS[0]}")
-    for f in $(ls $V/replays 2>/dev/null | head -3); do echo "--- replay $f"; head -c 1200 $V/replays/$f; echo; done
+    for f in $(ls $V/replays 2>/dev/null | head -3); do echo "--- replay $f"; head -c 6000 $V/replays/$f; echo; done
     rm -rf $V/replays
   done
 done
